@@ -7,16 +7,18 @@
 EXTENDS TypeExpr, TLC, Json, IOUtils
 Rec == ndJsonDeserialize(IOEnv.TRACE)
 VARIABLES i, bad
+\* e.vecu8: the name a container-instance mapping "Vec<u8>" = Name configures for this run ("" when there is none)
+A0(e) == AbsC(e.rust, e.vecu8)
 Cfg(e) == [prefix |-> e.prefix, mapping |-> e.mapping, aliases |-> e.aliases, prims |-> TRUE]
 \* members: compare what is under the optional marker. A double option collapses to one option outside
 \* TypeScript, whether the backend prints it as marker + nullable type (T??) or as a single marker.
-MemberOk(e) == LET A == ForLang(e.lang, Abs(e.rust))
+MemberOk(e) == LET A == ForLang(e.lang, A0(e))
                    U == Unopt(A)
                    O == ForLang(e.lang, e.ty)
                    OU == IF e.lang # "typescript" /\ A.k = "opt" /\ O.k = "opt" THEN O.e ELSE O
                IN Conf(e.lang, Cfg(e), U, OU)
 TypeOk(e) == IF e.pos \in {"alias", "const"}
-             THEN Conf(e.lang, Cfg(e), ForLang(e.lang, Abs(e.rust)), ForLang(e.lang, e.ty))
+             THEN Conf(e.lang, Cfg(e), ForLang(e.lang, A0(e)), ForLang(e.lang, e.ty))
              ELSE MemberOk(e)
 Init == i = 1 /\ bad = <<>>
 Next == /\ i <= Len(Rec)
